@@ -201,7 +201,8 @@ def render_pair(root, plants):
     for p, f in plants:
         nodes.append((plant(obj_at(faulted, p), f), f, p))
     ref = root.clone()
-    for p, f in sorted(plants, key=lambda x: -len(x[0])):
+    # deepest first, later siblings first: removing an object must not shift a path still to be used
+    for p, f in sorted(plants, key=lambda x: (len(x[0]), tuple(x[0])), reverse=True):
         ref = reference_of(ref, p, f)
     src_f = qml.render(faulted)
     src_r = qml.render(ref)
